@@ -37,5 +37,7 @@ Verification you must do yourself for each change (and report the results):
      It must end with `missing=0` (it compares against the recorded list of stable passing tests; takes ~2-3 min). If a test fails, pick a different/more subtle change.
   2. demo.py FAILS with the change and PASSES after `git -C {wt} checkout -- .`
 Between the two changes restore the tree (`git -C {wt} checkout -- .`) so the patches are independent. Leave the worktree clean at the end.
+NEVER use `git stash` (the stash is shared by all worktrees of this repository and other people work in sibling worktrees): save a diff to a file and use `git apply` / `git apply -R` / `git checkout -- .` instead.
+The machine is shared: a few live-server tests (test_app[flask], test_app[aiohttp], test_ignored_auth_valid, test_multiple_source_links) can time out under load; the comparison tool retries a handful of missing tests serially, and if only such tests stay missing rerun it with -n 4.
 
 Final answer: for each change, one paragraph (what, where, why it needs something specific to manifest) plus the verification results. Be concise.""")
